@@ -101,6 +101,12 @@ def source_of(fn, expr, depth=0):
     s = expr.strip_all()
     if s.k == 'MemberExpr' and s.decl and s.decl.get('name') in ('edges', 'cycle') and s.c:
         return ('cyc', ex.var_of(s.c[0]))
+    # a container built from a whole range: std::list<Edge>(X.begin(), X.end())
+    if s.k in ex.CTOR_KINDS and (len(s.c) == 2 or (len(s.c) == 3 and s.c[2].k == 'CXXDefaultArgExpr')):
+        b, e = s.c[0].strip_all(), s.c[1].strip_all()
+        if b.k == 'CXXMemberCallExpr' and e.k == 'CXXMemberCallExpr' and b.callee and e.callee and b.callee['name'] in ('begin', 'cbegin') and \
+                e.callee['name'] in ('end', 'cend') and ex.key(b.object_arg()) == ex.key(e.object_arg()):
+            return source_of(fn, b.object_arg(), depth)
     v = ex.var_of(s)
     if v is not None:
         p = provenance(fn, v, depth + 1)
@@ -291,6 +297,30 @@ def analyse_phase(prog, F, fn, info):
     # R02a
     whatw = 'the returned value is increased once per phase by the weight of the very cycle that is emitted'
     rets = ex.returns_of(fn)
+
+    def zero_for_empty_basis(r):
+        # `if (csd == 0) return WeightType();` in front of the phase loop: the loop would not run and the sum is zero anyway
+        if not r.c or loop.is_ancestor_of(r):
+            return False
+        z = r.c[0].strip_all()
+        zero = z.cv == 0 or (z.k in ('CXXScalarValueInitExpr', 'CXXTemporaryObjectExpr', 'CXXFunctionalCastExpr') and not z.c) or \
+            (z.k == 'FloatingLiteral' and z.value == 0.0)
+        conds = ex.ast_conditions(r)
+        if not zero or len(conds) != 1:
+            return False
+        c, pol = conds[0]
+        c = c.strip_all()
+        if c.k == 'BinaryOperator' and c.op in ('==', '<', '<=') and pol:
+            l, rr = c.c[0], c.c[1]
+            if ex.var_of(l) == info['csd'] and ((c.op == '==' and rr.strip_all().cv == 0) or (c.op == '<' and rr.strip_all().cv == 1) or
+                                                (c.op == '<=' and rr.strip_all().cv == 0)):
+                return True
+            if ex.var_of(rr) == info['csd'] and c.op == '==' and l.strip_all().cv == 0:
+                return True
+        if c.k == 'UnaryOperator' and c.op == '!' and ex.var_of(c.c[0]) == info['csd'] and pol:
+            return True
+        return False
+    rets = [r for r in rets if not zero_for_empty_basis(r)]
     accs = set(ex.var_of(r.c[0]) for r in rets if r.c)
     if len(accs) != 1 or None in accs:
         F.add('R02a', fn.body, fn, whatw, 'undecided', 'function does not return a single accumulator variable')
@@ -299,6 +329,7 @@ def analyse_phase(prog, F, fn, info):
         adds = [(d, rhs) for (d, rhs) in ex.assignments_to(fn, acc) if d.k != 'VarDecl']
         inloop = [d for (d, rhs) in adds if loop.is_ancestor_of(d)]
         probs = []
+        und_w = []
         if len(adds) != 1 or len(inloop) != 1:
             probs.append('%d modification(s) of the accumulator, %d inside the phase loop (expected exactly one, inside)' % (len(adds), len(inloop)))
         for d in inloop:
@@ -308,7 +339,9 @@ def analyse_phase(prog, F, fn, info):
             wv = minsel.weight_of(d.c[1])
             if wv is None:
                 probs.append('added term `%s` is not the weight component of a (cycle, weight, found) triple' % d.c[1].text(40))
-            elif T_emit is None or T_emit[0] != 'cyc' or T_emit[1] != wv:
+            elif T_emit is None:
+                und_w.append('how the emitted list is built is outside the idiom table')
+            elif T_emit[0] != 'cyc' or T_emit[1] != wv:
                 probs.append('the weight added comes from `%s` but the emitted cycle comes from %s' % (
                     prog.vars[wv]['name'], describe(prog, T_emit)))
             pa, pe = cfg.pos_of(d), cfg.pos_of(emit)
@@ -330,6 +363,8 @@ def analyse_phase(prog, F, fn, info):
                 probs.append('accumulator does not start at zero')
         if probs:
             F.add('R02a', inloop[0] if inloop else fn.body, fn, whatw, 'violation', '; '.join(sorted(set(probs))), key='R02a|%s|weight' % fn.g)
+        elif und_w:
+            F.add('R02a', inloop[0] if inloop else fn.body, fn, whatw, 'undecided', '; '.join(sorted(set(und_w))))
         else:
             F.add('R02a', inloop[0], fn, whatw, 'ok', 'acc += weight(T) with T the source of the emitted list')
 
@@ -357,7 +392,7 @@ def analyse_phase(prog, F, fn, info):
         rng = pcall.args()[0].strip_all()
         if rng.k in ex.CTOR_KINDS and len(rng.c) >= 2:
             rng_lo, rng_hi = rng.c[0], rng.c[1]
-        ivs, rp = par.induction_vars(f2)
+        ivs, rp = par.induction_vars(f2, pcall)
         if lv not in ivs:
             probs.append('updated index `%s` is not the induction variable of the task range' % lidx.text(20))
     else:
@@ -450,7 +485,9 @@ def analyse_phase(prog, F, fn, info):
                 prog.vars[T_c[1]]['name'], prog.vars[T_emit[1]]['name']))
     elif 'odd' in atoms:
         probs.append('index set operand of the product not recognised')
-    if T_emit is None or T_emit[0] != 'cyc':
+    if T_emit is None:
+        unrec.append('how the emitted list is built is outside the idiom table')
+    elif T_emit[0] != 'cyc':
         probs.append('the emitted list is not built from the cycle component of the search result (%s)' % describe(prog, T_emit))
     if probs:
         F.add('R01b', upd, fn, whatb, 'violation', '; '.join(sorted(set(probs))), key='R01b|%s|update' % fn.g)
